@@ -255,6 +255,34 @@ class World:
                 raise Inconclusive("no PONG after %r (%d lines)" % (line, len(getattr(ex, "lines", []))))
         return self.finish_step(cid, exp, lines, pre, actor_closed)
 
+    def act_die(self, cid, cmd):
+        """DIE / SQUIT by an operator: every session is told and closed, the process stops"""
+        line = render(cmd)
+        self.log(cid, line)
+        exp = self.model.step(cid, cmd)
+        self.step_no += 1
+        self.shapes[exp.shape] += 1
+        for cv in exp.cover:
+            self.cover[cv] += 1
+        killer = self.model.conn[cid]["nick"]
+        self.clients[cid].send(line)
+        for k, c in list(self.clients.items()):
+            lines, kind = c.read_to_eof(5.0)
+            errs = [m for m in lines if m.verb.startswith("ERROR")]
+            if kind is None:
+                self.violate("die-not-closed", exp.props, exp.shape,
+                             "connection %s still open 5 s after %s" % (k, line))
+            elif errs and killer in errs[-1].raw:
+                # being told is not required by the statement (the process may stop first)
+                self.cover[("die", "told")] += 1
+        deadline = time.monotonic() + 5.0
+        while self.srv.alive() and time.monotonic() < deadline:
+            time.sleep(0.01)
+        if self.srv.alive():
+            self.violate("die-process-alive", exp.props, exp.shape, "server process still running 5 s after " + line)
+        self.dead = True
+        return self.violations
+
     def end_client(self, cid, how="close"):
         """client side ending; waits until the server has forgotten the user"""
         c = self.clients[cid]
@@ -277,6 +305,14 @@ class World:
         elif how == "toolong":
             c.send_raw(b"PRIVMSG x :" + b"a" * 2100 + b"\r\n")
         elif how == "unread-rst":
+            # output queued for the victim which it never reads, then a reset
+            if nick is not None:
+                for i in range(150):
+                    self.mon.send("PRIVMSG %s :%s" % (nick, "u%03d" % i + "x" * 380))
+                try:
+                    self.mon.ping("flood", self.watchdog)
+                except (wire.Closed, wire.Timeout):
+                    raise Inconclusive("monitor lost during flood")
             c.close_rst()
         else:
             raise ValueError(how)
